@@ -69,3 +69,43 @@ Proof.
   - destruct (dmem a seen); cbn [length]; [specialize (IH seen) | specialize (IH (a :: seen))]; lia.
   - cbn [length]. specialize (IH seen). lia.
 Qed.
+
+(* dedup_flags is the decision of dedup *)
+Lemma dedup_flags_spec items : forall seen, dedup seen items = select_flags items (dedup_flags seen items).
+Proof.
+  induction items as [|it r IH]; intro seen; [reflexivity|].
+  destruct it as [ids|a|]; cbn [dedup dedup_flags].
+  - destruct (insert_until_new seen ids) as [seen' k]. destruct k; cbn [select_flags]; rewrite IH; reflexivity.
+  - destruct (dmem a seen); cbn [select_flags]; rewrite IH; reflexivity.
+  - cbn [select_flags]. rewrite IH. reflexivity.
+Qed.
+
+Lemma dedup_flags_length items : forall seen, length (dedup_flags seen items) = length items.
+Proof.
+  induction items as [|it r IH]; intro seen; [reflexivity|].
+  destruct it as [ids|a|]; cbn [dedup_flags].
+  - destruct (insert_until_new seen ids) as [seen' k]. cbn [length]. rewrite IH. reflexivity.
+  - destruct (dmem a seen); cbn [length]; rewrite IH; reflexivity.
+  - cbn [length]. rewrite IH. reflexivity.
+Qed.
+
+(* when every item brings something new, every flag is true *)
+Lemma dedup_flags_fresh items : forall seen s,
+  incl seen s -> all_fresh s items = true -> dedup_flags seen items = map (fun _ => true) items.
+Proof.
+  induction items as [|it r IH]; intros seen s Hi H; [reflexivity|].
+  cbn [all_fresh] in H. apply andb_true_iff in H as [Hf Hr].
+  destruct it as [ids|a|]; cbn [dedup_flags fresh_wrt parts map] in *.
+  - pose proof (insert_until_new_keeps ids seen s Hi Hf) as Hk.
+    destruct (insert_until_new seen ids) as [seen' k] eqn:E. cbn [snd] in Hk. subst k.
+    f_equal. apply (IH seen' (ids ++ s)); [|exact Hr].
+    destruct (insert_until_new_incl ids seen seen' true E) as [H1 _].
+    intros x Hx. apply H1 in Hx. apply in_app_or in Hx as [Hx|Hx]; apply in_or_app; [left; exact Hx | right; apply Hi; exact Hx].
+  - apply negb_true_iff in Hf. rewrite (dmem_false_incl a seen s Hi Hf).
+    f_equal. apply (IH (a :: seen) ([a] ++ s)); [|exact Hr].
+    intros x [<-|Hx]; [left; reflexivity | right; apply Hi; exact Hx].
+  - f_equal. apply (IH seen ([] ++ s)); [exact Hi | exact Hr].
+Qed.
+
+Lemma select_flags_all {A} (l : list A) : select_flags l (map (fun _ => true) l) = l.
+Proof. induction l as [|x l IH]; [reflexivity|]. cbn [map select_flags]. rewrite IH. reflexivity. Qed.
